@@ -1,5 +1,5 @@
-"""C12 — generated code agrees with the dynamic interpreter internal/pure/onthefly (DESIGN.md §4 C12); TL1 part."""
-from checks import codec_common as cc
+"""C12 — generated code agrees with the dynamic interpreter internal/pure/onthefly (DESIGN.md §4 C12): TL1 and TL2."""
+from checks import codec_common as cc, codec_tl2 as t2, otf_model as om
 from vlib.core import hx
 
 LEVEL = "translation_validation"
@@ -9,12 +9,138 @@ DUP_KEY = "onthefly:dict-duplicate-key-keeps-first:t_dict_value.go"
 OTF_KEY = "onthefly:ReadTL1-no-length-sanity:t_array_value.go/t_dict_value.go"
 
 
+# TL2 half: every class of disagreement is ONE known finding, identified by the call site in onthefly; a disagreement is attributed
+# to them only when checks/otf_model.py reproduces BOTH answers exactly (no switch = generated code, all switches = onthefly)
+KEYS = {
+    om.A_TRUE_OBJECT: "onthefly:TL2-masked-true-field-is-an-object:t_struct_value.go WriteTL2/ReadFieldsTL2",
+    om.B_EMPTY_ARRAY: "onthefly:TL2-empty-array-written-as-0100:t_array_value.go/t_dict_value.go WriteTL2",
+    om.C_REPAIR: "onthefly:WriteTL1-resizes-tuple-to-its-nat-argument:t_array_value.go WriteTL1",
+    om.D_DUP_FIRST: DUP_KEY,
+    om.F_NEGZERO: "onthefly:TL2-float-negative-zero-is-not-empty:kernel_value.go primitiveValues",
+    om.S_TRUE_PARSED: "onthefly:ReadTL2-parses-empty-struct-that-generated-code-skips:t_struct_value.go ReadFieldsTL2",
+    om.T_TUPLE_COUNT: "onthefly:ReadTL2-tuple-no-count-sanity:t_array_value.go ReadTL2",
+    om.N_NO_SANITY: OTF_KEY,
+}
+
+
+def runaway(c, sc, l):
+    """would the interpreter create more than om.QUIET elements that no input byte backs (a count or a `#` far larger than the
+    input)?  Such lines take it seconds to minutes and end machine-dependently (error after the allocation, OOM, timeout): they are
+    not sent to it; the fixed probes, run one process each under a small address-space limit, stand for them."""
+    ans, big = om.predict_info(sc, l, om.ALL)
+    if ans == "BAND" or (ans or "").startswith("TOOBIG") or big > om.QUIET:
+        c.count("not-sent-to-interpreter:runaway-allocation")
+        return True
+    return False
+
+
+def tie_probes(c, name, sc, model, pre, lines):
+    lim, c.impl_mem_limit = c.impl_mem_limit, 1 << 30        # Go needs ~0.7 GB of address space to start; dies in seconds at 1 GB
+    try:
+        rg = c.tie("gen-vs-model-%s:%s" % (name, sc.sid), lines, sc.impl, model, prefix=pre, jobs=len(lines))
+        ro = c.tie("otf-vs-model-%s:%s" % (name, sc.sid), lines, sc.otf, model, prefix=pre, jobs=len(lines))
+    finally:
+        c.impl_mem_limit = lim
+    return rg, ro
+
+
+def tl2_compare(c, sc, res_gen, res_otf, what):
+    """C12 oracle on every line both implementations answered; returns the lines whose disagreement is explained"""
+    otf = {l: a for l, a, _ in res_otf}
+    explained = set()
+    for l, a, _ in res_gen:
+        b = otf.get(l)
+        if b is None or a == b:
+            continue
+        ex = om.explain(sc, l, a, b)
+        if ex:
+            for x in sorted(ex):
+                c.oracle_failures.append({"key": KEYS[x], "what": x, "input": l})
+                c.count("tl2-known-deviation:" + x)
+            explained.add(l)
+        else:
+            c.oracle_fail(l, "generated code and dynamic interpreter %s: generated %s, interpreter %s" % (what, a[:100], b[:100]), l)
+    return explained
+
+
+def tl2_phase(c, sc, model, rng, pre):
+    """TL2 half of the property: for the same value (decoded from the same TL1 bytes) both write identical TL2 bytes; both accept
+    the same TL2 byte strings and agree on what they decoded (observed through the re-written TL2 and TL1)."""
+    per = 8 if c.thorough else 3
+    # 1 string in `huge` gets a length around 65790, where the TL2 size of the string / of the bodies around it takes the 9-byte form
+    g1 = cc.Gen1(sc, rng.fork(), big=True, huge=25 if c.thorough else 60)
+    # union constructors are not values of their own in the interpreter (its union value owns the variants; a constructor struct
+    # created on its own has no variant index on the wire), so they are compared through their unions only
+    items = [(inst, it) for inst, it in t2.tl2_items(sc) if it[3] and not inst.get("isUnionElement")]
+    by_idx = {inst["idx"]: inst for inst, _ in items}
+
+    def for_otf(lines):
+        return [l for l in lines if not runaway(c, sc, l)]
+
+    x2 = []
+    for inst, it in items:
+        for boxed in (0, 1):
+            if inst["kind"] == "union" and not boxed:
+                continue
+            for _ in range(per):
+                x2.append(t2.x2_line(sc, inst, boxed, g1.value(inst["idx"], not boxed, [], 0)))
+    # every run has a few values whose strings are ALL of boundary length (bodies of >= 65790 bytes: 9-byte size form)
+    gh = cc.Gen1(sc, rng.fork(), huge=1)
+    n_huge = 0
+    for inst, it in items:
+        if n_huge >= (10 if c.thorough else 4):
+            break
+        b = gh.value(inst["idx"], False, [], 0)
+        if 65790 <= len(b) < 600000:
+            x2.append(t2.x2_line(sc, inst, 1, b))
+            n_huge += 1
+    rg = c.tie("gen-vs-model-tl2w:" + sc.sid, x2, sc.impl, model, prefix=pre)
+    ro = c.tie("otf-vs-model-tl2w:" + sc.sid, for_otf(x2), sc.otf, model, prefix=pre)
+    explained = tl2_compare(c, sc, rg, ro, "write different TL2 (or TL1) bytes for the same value")
+    r2 = set()
+    for l, a, _ in rg:
+        if a.startswith("ok "):
+            w2 = dict(p.split("=", 1) for p in a.split(" ") if "=" in p).get("w2")
+            if w2 and w2 not in ("panic", "werr") and not w2.startswith("!"):
+                inst = by_idx[int(l.split(" ")[2])]
+                bts = t2.unhex(w2)
+                r2.add(t2.r2_line(sc, inst, bts))
+                if len(bts) < 4096:
+                    r2.add(t2.r2_line(sc, inst, t2.mutate2(rng, bts)))
+                    r2.add(t2.r2_line(sc, inst, bts[:rng.below(len(bts) + 1)]))
+    g2 = t2.Gen2(sc, rng.fork(), big=c.thorough, huge=40 if c.thorough else 0)
+    for inst, it in items:
+        for _ in range(per):
+            v = g2.value(inst["idx"])
+            b = g2.top(inst, v, t2.Style(rng.fork(), p=rng.choice([3, 6])) if rng.chance(1, 2) else None)
+            r2.add(t2.r2_line(sc, inst, b))
+            if rng.chance(1, 2) and len(b) < 4096:
+                r2.add(t2.r2_line(sc, inst, t2.mutate2(rng, b)))
+            vb = om.bump_union(sc, inst["idx"], v)       # variant index one past the last variant: must be rejected by both
+            b = om.encode(sc, inst["idx"], vb) if vb is not None else None
+            if b is not None:
+                r2.add(t2.r2_line(sc, inst, b))
+    r2 = sorted(r2)
+    rg = c.tie("gen-vs-model-tl2r:" + sc.sid, r2, sc.impl, model, prefix=pre)
+    ro = c.tie("otf-vs-model-tl2r:" + sc.sid, for_otf(r2), sc.otf, model, prefix=pre)
+    explained |= tl2_compare(c, sc, rg, ro, "disagree on a TL2 byte string")
+    # fixed probes of the two runaway allocations (one process each, small address space so that they die quickly)
+    pr = om.probes(sc, items)
+    if pr:
+        rg, ro = tie_probes(c, "tl2p", sc, model, pre, pr)
+        explained |= tl2_compare(c, sc, rg, ro, "disagree on a TL2 byte string")
+    for t in c.tie_failures:
+        if t["tie"].startswith("otf-vs-model-tl2") and t["tie"].endswith(":" + sc.sid) and t["line"] in explained:
+            t["explained"] = True
+
+
 def run(c):
     model, hcodec, schemas = cc.prepare(c, [s for s in cc.corpus(c) if s.sid in ("cases", "gold")])
     rng = c.rng
     c.impl_timeout = 300
     for sc in schemas:
-        # valid encodings, truncations and small mutations; count inflation only through a handful of fixed probes (each costs the interpreter GBs)
+        # valid encodings, truncations and small mutations; count inflation only through a fixed probe (a mutation that makes the
+        # interpreter read string bytes as a count costs it GBs and minutes: see `runaway`)
         g = cc.Gen1(sc, rng.fork(), big=c.thorough)
         lines = []
         for inst, it in sc.items:
@@ -30,22 +156,28 @@ def run(c):
                         i = 4 * rng.below(len(m) // 4)       # least significant byte of a word
                         m[i] ^= 1 << rng.below(3)          # low bits only: keeps counts small
                         lines.append("codec.x1 %s %d %s %d %s" % (sc.sid, inst["idx"], inst["tlname"], boxed, hx(bytes(m))))
-        probes = []
-        for inst, it in sc.items:
-            if c.thorough and "array" in cc.reach_kinds(sc, inst["idx"]) and inst["kind"] == "struct" and len(probes) < 1:
-                probes.append("codec.x1 %s %d %s 0 %s" % (sc.sid, inst["idx"], inst["tlname"], "ffffff7f" * 3))
+        probes = om.probe_tl1(sc, sc.items)
         pre = [sc.desc_line()]
-        res_gen = c.tie("gen-vs-model:" + sc.sid, lines + probes, sc.impl, model, prefix=pre)
-        res_otf = c.tie("otf-vs-model:" + sc.sid, lines + probes, sc.otf, model, prefix=pre)
+        res_gen = c.tie("gen-vs-model:" + sc.sid, lines, sc.impl, model, prefix=pre)
+        res_otf = c.tie("otf-vs-model:" + sc.sid, [l for l in lines if not runaway(c, sc, l)], sc.otf, model, prefix=pre)
+        if probes:
+            pg, po = tie_probes(c, "tl1p", sc, model, pre, probes)
+            res_gen, res_otf = res_gen + pg, res_otf + po
         dup_lines = set()
         otf_lines = set()
         suspects = []
-        for (l, a, _), (_, b, _) in zip(res_gen, res_otf):
-            if a != b:
-                if a == "err eof" and b in ("CRASH", "TIMEOUT"):
-                    # generated code (and the model) reject with EOF — the element-count sanity check — while the interpreter
-                    # dies allocating: exactly the missing sanity check of the known finding
-                    c.oracle_failures.append({"key": OTF_KEY, "what": "otf", "input": l})
+        otf_ans = {l: b for l, b, _ in res_otf}
+        for l, a, _ in res_gen:
+            b = otf_ans.get(l)
+            if b is not None and a != b:
+                ex = om.explain(sc, l, a, b)
+                if ex:
+                    # exactly the interpreter's answer under its known deviations: a count the generated sanity check refuses with
+                    # EOF (the probe: the interpreter dies allocating; a valid n*[T] of elements of zero wire size: it reads them),
+                    # first-wins duplicate keys
+                    for x in sorted(ex):
+                        c.oracle_failures.append({"key": KEYS[x], "what": x, "input": l})
+                        c.count("tl1-known-deviation:" + x)
                     otf_lines.add(l)
                     continue
                 pa, pb = a.split(" "), b.split(" ")
@@ -72,5 +204,13 @@ def run(c):
         for t in c.tie_failures:
             if (t["line"] in otf_lines or t["line"] in dup_lines) and t["tie"].startswith("otf-vs-model"):
                 t["explained"] = True
-    c.extra["rule"] = "same TL1 case lines served by generated code, by onthefly.CreateValue(instance) and by the Lean model; three-way comparison"
+        if sc.tl2:
+            tl2_phase(c, sc, model, rng, pre)
+    c.extra["rule"] = ("same case lines served by generated code, by onthefly.CreateValue(instance) and by the Lean model; three-way comparison. "
+                       "TL1: codec.x1 (read TL1, re-write bare+boxed) on type-directed valid encodings, truncations, low-bit mutations. "
+                       "TL2: codec.x2 (read TL1, write TL2 + TL1 boxed) on type-directed values incl. strings of 65774..65793 bytes; codec.r2 (read TL2, "
+                       "re-write TL2 + TL1 boxed) on the TL2 bytes generated code wrote, their byte mutations and truncations, Gen2 encodings in "
+                       "non-minimal forms; lines on which the interpreter would allocate > 4096 elements not backed by input are left to two fixed probes. "
+                       "distinct = distinct line text; a disagreement of the two implementations is a violation unless checks/otf_model.py reproduces "
+                       "both answers exactly (then it is the known findings named by the deviation switches that matter for the line)")
     c.extra["explanation"] = "three-way differential run"
